@@ -1,0 +1,10 @@
+//go:build verif
+
+package index
+
+import "io"
+
+// VerifInsertIndex exposes insertIndex to the verification harness.
+func VerifInsertIndex(r io.ReadSeeker, b []byte) (int, error) {
+	return insertIndex(r, make([]byte, 16), b)
+}
